@@ -525,6 +525,7 @@ def g_mutate(rng, spec, n=None):
 # ---- fault, then reuse: an operation on an object RAISES part way, the caller repairs the object and uses it again
 # where the fault is put (kinds of place in a spec) and what is put there (spellings of "a value this place cannot hold")
 FAULT_BAD = {"int": ["none", "big", "neg", "str", "obj"],            # a number is needed
+             "mint": ["big", "neg", "str", "obj"],                             # a number is needed, in a match field
              "payload": ["int", "obj", "wide"],                        # bytes are needed
              "zs": ["none", "wide", "long", "int"],                    # a representable string is needed
              "addr": ["none", "short", "int"],                         # an address is needed
@@ -544,10 +545,15 @@ def fault_sites(spec, path=()):
     sub-objects (replaced as a whole, and faults inside them), element lists (a bad element first / in the middle / last,
     and faults inside elements)"""
     out = []; path = list(path)
-    if not isinstance(spec, dict) or "cls" not in spec or spec["cls"] == "ofp_match": return out
+    if not isinstance(spec, dict) or "cls" not in spec: return out
+    if spec["cls"] == "ofp_match":                   # (None in a match field is a wildcard, not a fault)
+        return [{"path": path, "via": "attr", "attr": k, "what": "mint"} for k, v in spec.get("kw", {}).items() if isinstance(v, int) and not isinstance(v, bool)]
     for part in ("kw", "set"):
         for k, v in spec.get(part, {}).items():
             if isinstance(v, bool) or k in ("load", "enable"): continue
+            # (reading already recorded for this class: pack() sets max_len to 0 whenever port is not OFPP_CONTROLLER — also
+            #  when port is not a port at all; so the port of an output-to-controller action is not a place for a fault)
+            if spec["cls"] == "ofp_action_output" and k == "port" and v == 0xfffd: continue
             if isinstance(v, int): out.append({"path": path, "via": "attr", "attr": k, "what": "int"})
             elif isinstance(v, str) and k in ("data", "body"): out.append({"path": path, "via": "attr", "attr": k, "what": "payload"})
             elif isinstance(v, str) and k in ZS_FIELDS: out.append({"path": path, "via": "attr", "attr": k, "what": "zs"})
@@ -563,7 +569,22 @@ def fault_sites(spec, path=()):
     return out
 
 
-def g_fault(rng, spec, n=None, k0=0):
+def nonzero(rng, spec):
+    """the spec with every number that is 0 made 1..3 (what a failed call leaves behind often only shows next to a value
+    that is not the default); type codes and matches stay"""
+    if isinstance(spec, list): return [nonzero(rng, x) for x in spec]
+    if not isinstance(spec, dict): return spec
+    if "cls" not in spec or spec["cls"] == "ofp_match": return copy.deepcopy(spec)
+    s = copy.deepcopy(spec)
+    for part in ("kw", "set"):
+        for k, v in s.get(part, {}).items():
+            if isinstance(v, bool) or k in SKIP_SET: continue
+            if isinstance(v, int) and v == 0: s[part][k] = rng.randint(1, 3)
+            elif isinstance(v, (dict, list)) and k != "slaves": s[part][k] = nonzero(rng, v)
+    return s
+
+
+def g_fault(rng, spec, n=None, k0=0, every=False):
     """fault-then-reuse cases over one spec: one per fault site (or n sampled attribute sites + every element site), the
     spelling of the bad value, the call that meets it and the order of the calls after the repair rotating"""
     sites = fault_sites(spec)
@@ -573,9 +594,11 @@ def g_fault(rng, spec, n=None, k0=0):
         if len(el) > n: el = [el[i] for i in sorted(rng.sample(range(len(el)), n))]
         sites = at + el
     out = []
+    if every:                                     # every spelling at every site
+        sites = [dict(s, bad=b) for s in sites for b in FAULT_BAD[s["what"]]]
     for i, s in enumerate(sites):
         bads = FAULT_BAD[s["what"]]
-        f = dict(s); f["bad"] = bads[(i + k0) % len(bads)]
+        f = dict(s); f["bad"] = s.get("bad") or bads[(i + k0) % len(bads)]
         if f["bad"] == "unset":
             pool = UNSET_ELEMS.get(s.get("list"))
             if pool: f["elem"] = copy.deepcopy(pool[(i + k0) % len(pool)])
@@ -764,7 +787,8 @@ class C01(Check):
                   "len = __len__, header length field = byte count, re-encode reproduces the bytes. Irregular/untranslated classes are pinned by name.")
     level_note = ("pack() is modelled as a FUNCTION of the object's value (the model has no state): the `reuse` cases check exactly that on the real code — the same "
                   "component object (match, action, port, queue, stats entry) through hash()/==/show() and several messages in several orders must pack like a fresh equal "
-                  "object every time. roundtrip_regular is the statement about pack()/unpack() for classes with no flags; `roundtrip` is the same fact about the layout "
+                  "object every time; the `fault` cases check that a pack()/len()/unpack() that RAISED leaves nothing behind (object and class), the results after the repair being "
+                  "compared with the model's answer for the repaired value (ofp_flow_mod_table_id, nx_action_learn/bundle: oracle only, as for their plain cases). roundtrip_regular is the statement about pack()/unpack() for classes with no flags; `roundtrip` is the same fact about the layout "
                   "interpreter for every translated class. Nicira actions inside action lists decode to ofp_action_vendor_generic (vendor_action_in_list: same bytes, "
                   "re-encodes identically; equality with the original needs fixes/C01-K4). nx_flow_mod / nxt_packet_in are compared by the oracle with the nicira-ext.h layout "
                   "(Spec/NXLayouts.lean, pad to 8 computed in the oracle) for nx_match lengths covering every residue mod 8. "
@@ -785,6 +809,10 @@ class C01(Check):
             "strings of every length and every class of character (ASCII, U+0080..U+00FF incl. as last byte of a full field, beyond U+00FF, NUL inside/at either end, one too long; as str and as bytes; unrepresentable ones must be refused), "
             "every message/action/struct class decoded behind 8, 12, 24, 64, 780 bytes inside a larger buffer; mutate-after-measure histories (len/pack/show/==/hash, then one in-place change of a scalar, payload, string, "
             "action/port/queue/property/stats list or element, nx_match mask or value, then pack == pack of a fresh object of the new value), "
+            "fault-then-reuse histories for every class (a scalar / payload / string / address / sub-object / list element made invalid as None, out of range, negative, wrong type, "
+            "an element with an unset field — first, middle, last — so that pack()/len() raises, once or twice; or a buffer cut at ten places offered to unpack() of a default-constructed or a used object; "
+            "the value put back; then pack / len / unpack of the whole message into the same object in every order, another instance, unpack_new: each result equal to that of an object "
+            "with the same life but for the failed call, and the final pack/len/length field/decoded record equal to the model's answer for that value), "
             "nx_action_learn with immediates of 1..64 and wider bits x every source/destination kind laid out from nicira-ext.h's description, spec lists of every size mod 8, bundles with 0..12 slaves, action lists 0..8183, payloads 0..1500, stats replies with 0..40 entries, every NXM type with/without mask; "
             "non-trivial = pack() produced bytes and the object has at least one non-default field")
 
@@ -849,7 +877,7 @@ class C01(Check):
 
     PIN_MODULE = "PoxModel.Properties.C01Pins"
     PIN_THEOREMS = ["Pox.C01.untranslated_pinned", "Pox.C01.irregular_pinned", "Pox.C01.uncovered_pinned", "Pox.C01.spec_table_tied",
-                    "Pox.C01.outL_is", "Pox.C01.vendorGenericTied", "Pox.C01.outAction_ok", "Pox.C01.psElem_ok"]
+                    "Pox.C01.outL_is", "Pox.C01.vendorGenericTied", "Pox.C01.outAction_ok", "Pox.C01.psElem_ok", "Pox.C01.codec_message_nonvacuous"]
 
     def translate(self):
         text, classes, untranslated, regs = codec_layouts.render(common.REPO)
@@ -1479,7 +1507,8 @@ class C01(Check):
         try:
             if trunc:
                 s0 = case.get("spec0")
-                o, ref = ((B.build(s0), B.build(s0)) if s0 is not None else (B.cls(s["cls"])(), B.cls(s["cls"])()))
+                try: o, ref = ((B.build(s0), B.build(s0)) if s0 is not None else (B.cls(s["cls"])(), B.cls(s["cls"])()))
+                except Exception: o, ref = B.cls(s["cls"])(), B.cls(s["cls"])()          # (the other value cannot be built: start from a new object)
                 cut = f["cut"]; n = len(raw)
                 at = {"abs": lambda: cut[1], "end": lambda: n - cut[1], "half": lambda: n // 2}[cut[0]]()
                 at = max(0, min(n - 1, at))
@@ -1988,7 +2017,12 @@ class C01(Check):
         if "stale" in f: return "%s:pack:stale-body" % cls
         if f.startswith("pack depends on the object's history"): return "%s:pack:depends-on-history" % cls
         if f.startswith("result depends on the object's history"): return "%s:%s:depends-on-history" % (cls, case.get("mode", "seq"))
-        if f.startswith("a failed operation leaves something behind"): return "%s:failed-%s:leaves-state" % (cls, "unpack" if case.get("fault", {}).get("via") == "trunc" else "pack")
+        if f.startswith("a failed operation leaves something behind"):
+            ft = case.get("fault", {})
+            if ft.get("via") == "trunc": return "%s:failed-unpack:short-buffer:leaves-state" % cls
+            place = ft.get("attr") if ft.get("via") == "attr" else "%s[]" % (ft.get("path") or ["?"])[-1]
+            if len(ft.get("path") or []) > (0 if ft.get("via") == "attr" else 1): place = "nested." + str(place)
+            return "%s:failed-%s:%s=%s:leaves-state" % (cls, case.get("op", "pack").replace("_twice", ""), place, ft.get("bad"))
         if f.startswith("unpack (") or f.startswith("pack differs when"): return "%s:calling-convention:%s" % (cls, f.split("(")[1].split(")")[0] if f.startswith("unpack") else "alt-forms")
         if f.startswith("pack accepts a string"): return "%s:pack:accepts-unrepresentable-string" % cls
         if f.startswith("string field"): return "%s:roundtrip:string-differs" % cls
@@ -2193,13 +2227,14 @@ class C01(Check):
         (sampled where there are many), in every spelling; a buffer cut at ten places offered to a default-constructed object
         and to one that holds another value"""
         out = []
-        specs = [s for s in self.all_class_specs(rng) if s["cls"] != "ofp_match"]
+        specs = self.all_class_specs(rng) + [abnormal_match(rng)]
         for k in ("flow_mod", "packet_out", "features_reply", "stats_reply", "queue_get_config_reply"):
             if k in ofgen.MESSAGE_KINDS: specs.append(ofgen.message(rng, k))
         specs += [g_nx_message(rng, k) for k in ("nx_flow_mod", "ofp_flow_mod_table_id", "nxt_packet_in")]
         for i, sp in enumerate(specs):
-            out += g_fault(rng, sp, 8, k0=i)
-            out += g_fault_trunc(rng, sp, perturb(rng, sp), k0=i)
+            sp = nonzero(rng, sp)
+            out += g_fault(rng, sp, None, k0=i, every=True)
+            out += g_fault_trunc(rng, sp, nonzero(rng, perturb(rng, sp)), k0=i)
         return out
 
     def all_class_specs(self, rng):
@@ -2337,7 +2372,7 @@ class C01(Check):
             cases.append({"kind": "conv", "spec": spec, "offsets": [1, 8, 13]})
         cases += self.offset_cases(rng)
         cases += self.mutate_cases(rng)
-        cases += self.fault_cases(rng)
+        cases += self.fault_cases(random.Random(7))             # (its own stream: the cases after it keep their values)
         # ofp_action_output: every reserved port, with and without max_len (max_len must survive for CONTROLLER only)
         for port in (0, 1, 0xff00, 0xfff8, 0xfff9, 0xfffa, 0xfffb, 0xfffc, 0xfffd, 0xfffe, 0xffff):
             for ml in (None, 0, 1, 128, 0xffff):
@@ -2415,6 +2450,7 @@ class C01(Check):
                 if m == "conv": yield {"kind": "conv", "spec": sp, "offsets": [rng.randint(1, 20), rng.choice(self.STREAM_OFFSETS), rng.randint(21, 2000)]}
                 elif rng.random() < 0.35:
                     if rng.random() < 0.3: sp = g_nx_message(rng)
+                    if rng.random() < 0.7: sp = nonzero(rng, sp)
                     k0 = rng.randint(0, 59)
                     if rng.random() < 0.6:
                         for c in g_fault(rng, sp, 2, k0=k0): yield c
